@@ -843,7 +843,11 @@ func c13RunSchedule(sc c13Schedule, aging time.Duration, hits *[8]int64) (res c1
 	}
 	ok, _ := r.quiesce(c13Watchdog, nil, s.releaseParked)
 	if !ok {
-		res.Inconcl = "pool did not become quiescent (queue table non-empty or convoys alive) within the watchdog"
+		// not quiescent: "lost" cannot be judged, but what HAS been executed can (overlap,
+		// order, wrong queue, duplicates are positive evidence whatever happens later)
+		if res.Verdicts = r.check(false); len(res.Verdicts) == 0 {
+			res.Inconcl = "pool did not become quiescent (queue table non-empty or convoys alive) within the watchdog"
+		}
 		return
 	}
 	res.Verdicts = r.check(true)
@@ -1035,7 +1039,9 @@ func c13RunOverflowOrder(n int, aging time.Duration, hits *[8]int64) (res c13Sch
 	s.releaseParked()
 	ok, _ := r.quiesce(c13Watchdog, nil, s.releaseParked)
 	if !ok {
-		res.Inconcl = "pool did not become quiescent within the watchdog"
+		if res.Verdicts = r.check(false); len(res.Verdicts) == 0 {
+			res.Inconcl = "pool did not become quiescent within the watchdog"
+		}
 		return
 	}
 	res.Verdicts = r.check(true)
@@ -1195,7 +1201,16 @@ func c13TaskPoolStress(m *vk.Monitor) {
 		m.Count("a_stress_rounds", 1)
 		if !ok {
 			m.Count("a_stress_watchdog", 1)
-			m.Inconclusive("taskpool stress round %d did not quiesce within the watchdog", round)
+			vs := r.check(false)
+			for _, v := range vs {
+				if !reported["s/"+v.Sig] {
+					reported["s/"+v.Sig] = true
+					m.Violation(v.Sig+"/stress", v.What+" (pool did not quiesce afterwards)", map[string]any{"round": round, "config": cfg, "detail": v.Witness})
+				}
+			}
+			if len(vs) == 0 {
+				m.Inconclusive("taskpool stress round %d did not quiesce within the watchdog", round)
+			}
 			break
 		}
 		r.mu.Lock()
